@@ -14,6 +14,12 @@ for f in sorted(glob.glob(os.path.join(HERE, 'evidence', '*.json'))):
         jsonschema.validate(json.load(open(f)), es); print(f, 'ok')
     except Exception as e:
         ok = False; print(f, 'INVALID', str(e)[:300])
+try:
+    for c in m['checks']:
+        if not os.path.exists(os.path.join(HERE, 'evidence', c['property_id'] + '.json')):
+            ok = False; print('no evidence file for', c['property_id'])
+except Exception as e:
+    ok = False; print('evidence presence check failed:', e)
 # every open entry of known_findings.json must have produced its KNOWN-FINDING line in the committed (clean-tree) evidence
 try:
     known = json.load(open(os.path.join(HERE, 'known_findings.json')))
